@@ -171,6 +171,7 @@ func checkC10(c *Ctx, e *Env) {
 			}
 		}
 		ruleLocalZone(c, m, g, zoneFns)
+		ruleInvariantsReadOnly(c, m, g)
 		for _, fn := range sortedFns(cl) {
 			if ex := excludedPkg(fnPkgPath(fn)); ex != "" && len(fn.Blocks) > 0 && g.isSubjectFn(fn) {
 				c.Violate("C10.CLOSURE", funcKey(fn), m.P.Pos(fn.Pos()), "consensus closure reaches a function of an excluded package ("+ex+") via "+g.PathTo(fn), nil)
@@ -1175,4 +1176,48 @@ func ruleLocalZone(c *Ctx, m *Model, g *Graph, fns []*ssa.Function) {
 		}
 	}
 	c.Count("zone_dependent_time_calls", n)
+}
+
+
+// ruleInvariantsReadOnly (D9): the registered invariants run only on nodes that asked for them
+// (inv-check-period, a node-local setting) and only at that node's period — whatever they write,
+// some validators write and others do not. Nothing reachable from a module's RegisterInvariants writes
+// to the ORM or moves coins.
+func ruleInvariantsReadOnly(c *Ctx, m *Model, g *Graph) {
+	p := m.P
+	var roots []*ssa.Function
+	for _, f := range m.subjectFns(false) {
+		if f.Name() == "RegisterInvariants" && f.Signature.Recv() != nil {
+			roots = append(roots, f)
+		}
+	}
+	if len(roots) == 0 {
+		return
+	}
+	n, bad := 0, 0
+	for _, fn := range sortedFns(g.Closure(roots)) {
+		if !g.isSubjectFn(fn) || isCanaryFn(fn) {
+			continue
+		}
+		n++
+		for _, ci := range callsIn(fn) {
+			call, ok := ci.(*ssa.Call)
+			if !ok {
+				continue
+			}
+			what := ""
+			if oc := m.AsORMCall(call); oc != nil && isWriteOp(oc.Kind) {
+				what = oc.Table.Name + "." + oc.Method
+			} else if bm := AsBankCall(call); bm != "" && isBankMutator(bm) {
+				what = "bank." + bm
+			}
+			if what != "" {
+				bad++
+				c.Violate("C10.D9", funcKey(fn)+"#"+what, p.Pos(call.Pos()), "a registered invariant writes state ("+what+"): invariants run only on nodes with a non-zero inv-check-period and only at that node's period, so the write happens on some validators and not on others; reached via "+g.PathTo(fn), nil)
+			}
+		}
+	}
+	if bad == 0 {
+		c.Hold("C10.D9", shortPkg(fnPkgPath(roots[0]))+"#invariants-read-only", p.Pos(roots[0].Pos()), fmt.Sprintf("no ORM write and no bank mutator in the %d functions reachable from RegisterInvariants", n), nil)
+	}
 }
